@@ -198,6 +198,13 @@ func (rt *Rt) addProbes() {
 			rt.record(env, "host-see", Canon(args.Cells[0]))
 			return args.Cells[1]
 		}),
+		// (host-cond tag) remembers the error object currently pending for
+		// rethrow (nil outside a handler).
+		HostBuiltin("host-cond", lisp.Formals("tag"), func(env *lisp.LEnv, args *lisp.LVal) *lisp.LVal {
+			rt.HostErrs = append(rt.HostErrs, env.Runtime.CurrentCondition())
+			rt.record(env, "host-cond", Canon(args.Cells[0]))
+			return lisp.Nil()
+		}),
 		// (gset 'name v) binds a global in the user package, logged.
 		HostBuiltin("gset", lisp.Formals("name", "v"), func(env *lisp.LEnv, args *lisp.LVal) *lisp.LVal {
 			name := args.Cells[0]
